@@ -195,6 +195,20 @@ check(
     "DESIGN.md section 4 C18",
 )
 
+check(
+    "C17", "exploration",
+    "Model-based histories of enter/exit (normal and exceptional)/construct/observe rules executed in three threads, contexts "
+    "up to depth 4 setting arbitrary subsets of the eight settings incl. registered custom backends; reference model = "
+    "per-thread stack of dicts with the precedence explicit > innermost context > outer > default; after every rule every "
+    "thread's observation is compared with the model (restoration after exit, isolation between threads, precedence of each "
+    "setting, sharedmem constraint, prefer as a hint only).",
+    "Parallel objects are constructed but not called; LIFO exits; backend=None / n_jobs=None are not passed to contexts; the "
+    "suite-pinned exception (context n_jobs dropped when a context-selected process backend is replaced for sharedmem) is part "
+    "of the model.",
+    "Hypothesis model-based (stateful) rule histories across threads vs stack-of-dicts reference model",
+    "DESIGN.md section 4 C17",
+)
+
 NOT_YET = "check not built yet in this session (work in progress; see DESIGN.md section 4 for the planned generator and oracle)"
 
 
